@@ -16,12 +16,12 @@ impl MapKey for B { type Value = String; }
 
 /// what the slot of one resource type holds
 #[derive(Clone, Debug, PartialEq)]
-enum Slot<V> { Empty, Map(HashMap<u8, V>), U32(u32), Str(String) }
+enum Slot<V> { Empty, Map(HashMap<u8, V>), U32(u32), Str(String), /** a state of type Box<dyn Any> (holding this u32) */ AnyBox(u32) }
 impl<V: Clone> Slot<V> { fn map(&self) -> HashMap<u8, V> { match self { Slot::Map(m) => m.clone(), _ => HashMap::new() } } }
 
 #[derive(Clone, Debug)]
 pub enum Op { Read(u8), Insert(u8, u8), WriterGet(u8), WriterGetMutSet(u8, u8), EntryOrInsert(u8, u8), EntryRemove(u8), DirectInsert(u8, u8), DirectRemove(u8),
-              SetU32(u32), SetStr(u8), GetU32, GetStr, GetMap, GetMutU32Add, SetBoxedU32(u32), GetBoxedKind, BoxedMutToStr(u8), DefaultU32, DefaultStrPush, Checker(u8), /** check against a given stamp, without stamping first */ CheckOnly(u8, Option<u8>) }
+              SetU32(u32), SetStr(u8), GetU32, GetStr, GetMap, GetMutU32Add, SetBoxedU32(u32), GetBoxedKind, BoxedMutToStr(u8), SetAnyBoxState(u32), GetAnyBoxState, DefaultU32, DefaultStrPush, Checker(u8), /** check against a given stamp, without stamping first */ CheckOnly(u8, Option<u8>) }
 
 pub trait ValOf: Sized + Clone + PartialEq + std::fmt::Debug + 'static { fn of(x: u8) -> Self; }
 impl ValOf for u8 { fn of(x: u8) -> u8 { x } }
@@ -74,11 +74,17 @@ fn apply<K, F>(pie: &mut Pie<()>, mk: F, slot: &mut Slot<K::Value>, op: &Op, who
       if got != exp { fail!("C14.bounded.read_yields_the_value_most_recently_stored", "{}: direct remove({}) = {:?}, expected {:?}", who, k, got, exp); } }
     Op::SetU32(x) => { state.set::<u32>(*x); *slot = Slot::U32(*x); }
     Op::SetStr(x) => { state.set::<String>(format!("s{}", x)); *slot = Slot::Str(format!("s{}", x)); }
+    Op::SetAnyBoxState(x) => { state.set::<Box<dyn std::any::Any>>(Box::new(*x)); *slot = Slot::AnyBox(*x); }
+    Op::GetAnyBoxState => {
+      let got = state.get::<Box<dyn std::any::Any>>().map(|b| b.as_ref().downcast_ref::<u32>().copied());
+      let exp = if let Slot::AnyBox(x) = slot { Some(Some(*x)) } else { None };
+      if got != exp { fail!("C14.bounded.typed_get_sees_only_a_state_of_that_type", "{}: get::<Box<dyn Any>>() = {:?}, slot holds {:?}", who, got, slot); }
+    }
     Op::SetBoxedU32(x) => { state.set_boxed(Box::new(*x)); *slot = Slot::U32(*x); }
     Op::GetBoxedKind => {
       let kind = |b: &Box<dyn std::any::Any>| if b.as_ref().is::<u32>() { "u32" } else if b.as_ref().is::<String>() { "string" } else if b.as_ref().is::<HashMap<K, K::Value>>() { "map" } else { "something else" };
       let got = state.get_boxed().map(kind);
-      let exp = match slot { Slot::Empty => None, Slot::Map(_) => Some("map"), Slot::U32(_) => Some("u32"), Slot::Str(_) => Some("string") };
+      let exp = match slot { Slot::Empty => None, Slot::Map(_) => Some("map"), Slot::U32(_) => Some("u32"), Slot::Str(_) => Some("string"), Slot::AnyBox(_) => Some("something else") };
       if got != exp { fail!("C14.bounded.boxed_access_sees_the_box_of_the_slot", "{}: get_boxed() holds {:?}, slot holds {:?}", who, got, slot); }
     }
     Op::BoxedMutToStr(x) => {
@@ -130,11 +136,11 @@ impl Rng { fn next(&mut self) -> u64 { self.0 ^= self.0 << 13; self.0 ^= self.0 
 pub fn gen(rng: &mut Rng, len: usize) -> Vec<(bool, Op)> {
   (0..len).map(|_| {
     let k = rng.below(3) as u8; let v = 1 + rng.below(4) as u8;
-    let op = match rng.below(25) {
+    let op = match rng.below(27) {
       0 | 1 => Op::Read(k), 2 | 3 => Op::Insert(k, v), 4 => Op::WriterGet(k), 5 => Op::WriterGetMutSet(k, v), 6 => Op::EntryOrInsert(k, v), 7 => Op::EntryRemove(k),
       8 => Op::DirectInsert(k, v), 9 => Op::DirectRemove(k), 10 => Op::SetU32(v as u32), 11 => Op::SetStr(v), 12 => Op::GetU32, 13 => Op::GetStr, 14 => Op::GetMap,
       15 => Op::GetMutU32Add, 16 => Op::DefaultU32, 17 => Op::DefaultStrPush, 18 | 19 => Op::CheckOnly(k, if rng.below(3) == 0 { None } else { Some(v) }), 20 | 21 => Op::Checker(k),
-      22 => Op::SetBoxedU32(v as u32), 23 => Op::GetBoxedKind, _ => Op::BoxedMutToStr(v) };
+      22 => Op::SetBoxedU32(v as u32), 23 => Op::GetBoxedKind, 24 => Op::BoxedMutToStr(v), 25 => Op::SetAnyBoxState(v as u32), _ => Op::GetAnyBoxState };
     (rng.below(2) == 0, op)
   }).collect()
 }
@@ -146,10 +152,10 @@ pub fn run(ops: &[(bool, Op)]) -> Result<(), (usize, Fail)> {
   for (i, (on_a, op)) in ops.iter().enumerate() {
     if *on_a { apply::<A, _>(&mut pie, A, &mut sa, op, "key type A").map_err(|f| (i, f))?; } else { apply::<B, _>(&mut pie, B, &mut sb, op, "key type B").map_err(|f| (i, f))?; }
     // isolation: observe both slots through read-only typed gets
-    let (ga_map, ga_u, ga_s) = { let s = pie.resource_state_mut::<A>(); (s.get::<HashMap<A, u8>>().map(|m| m.iter().map(|(k, v)| (k.0, *v)).collect::<HashMap<u8, u8>>()), s.get::<u32>().copied(), s.get::<String>().cloned()) };
-    let (gb_map, gb_u, gb_s) = { let s = pie.resource_state_mut::<B>(); (s.get::<HashMap<B, String>>().map(|m| m.iter().map(|(k, v)| (k.0, v.clone())).collect::<HashMap<u8, String>>()), s.get::<u32>().copied(), s.get::<String>().cloned()) };
-    let obs_a = match (ga_map, ga_u, ga_s) { (Some(m), None, None) => Slot::Map(m), (None, Some(x), None) => Slot::U32(x), (None, None, Some(x)) => Slot::Str(x), (None, None, None) => Slot::Empty, o => return Err((i, Fail { prop: "C14", ob: "C14.bounded.one_state_per_resource_type", what: format!("slot of A shows several states at once: {:?}", o) })) };
-    let obs_b = match (gb_map, gb_u, gb_s) { (Some(m), None, None) => Slot::Map(m), (None, Some(x), None) => Slot::U32(x), (None, None, Some(x)) => Slot::Str(x), (None, None, None) => Slot::Empty, o => return Err((i, Fail { prop: "C14", ob: "C14.bounded.one_state_per_resource_type", what: format!("slot of B shows several states at once: {:?}", o) })) };
+    let (ga_map, ga_u, ga_s, ga_x) = { let s = pie.resource_state_mut::<A>(); (s.get::<HashMap<A, u8>>().map(|m| m.iter().map(|(k, v)| (k.0, *v)).collect::<HashMap<u8, u8>>()), s.get::<u32>().copied(), s.get::<String>().cloned(), s.get::<Box<dyn std::any::Any>>().map(|b| b.as_ref().downcast_ref::<u32>().copied().unwrap_or(u32::MAX))) };
+    let (gb_map, gb_u, gb_s, gb_x) = { let s = pie.resource_state_mut::<B>(); (s.get::<HashMap<B, String>>().map(|m| m.iter().map(|(k, v)| (k.0, v.clone())).collect::<HashMap<u8, String>>()), s.get::<u32>().copied(), s.get::<String>().cloned(), s.get::<Box<dyn std::any::Any>>().map(|b| b.as_ref().downcast_ref::<u32>().copied().unwrap_or(u32::MAX))) };
+    let obs_a = match (ga_map, ga_u, ga_s, ga_x) { (Some(m), None, None, None) => Slot::Map(m), (None, Some(x), None, None) => Slot::U32(x), (None, None, Some(x), None) => Slot::Str(x), (None, None, None, Some(x)) => Slot::AnyBox(x), (None, None, None, None) => Slot::Empty, o => return Err((i, Fail { prop: "C14", ob: "C14.bounded.one_state_per_resource_type", what: format!("slot of A shows several states at once: {:?}", o) })) };
+    let obs_b = match (gb_map, gb_u, gb_s, gb_x) { (Some(m), None, None, None) => Slot::Map(m), (None, Some(x), None, None) => Slot::U32(x), (None, None, Some(x), None) => Slot::Str(x), (None, None, None, Some(x)) => Slot::AnyBox(x), (None, None, None, None) => Slot::Empty, o => return Err((i, Fail { prop: "C14", ob: "C14.bounded.one_state_per_resource_type", what: format!("slot of B shows several states at once: {:?}", o) })) };
     if obs_a != sa { return Err((i, Fail { prop: "C14", ob: if *on_a { "C14.bounded.state_of_the_accessed_type_is_what_was_stored" } else { "C14.bounded.other_resource_types_see_no_change" }, what: format!("after {:?} on {}: slot of A is {:?}, expected {:?}", op, if *on_a { "A" } else { "B" }, obs_a, sa) })); }
     if obs_b != sb { return Err((i, Fail { prop: "C14", ob: if !*on_a { "C14.bounded.state_of_the_accessed_type_is_what_was_stored" } else { "C14.bounded.other_resource_types_see_no_change" }, what: format!("after {:?} on {}: slot of B is {:?}, expected {:?}", op, if *on_a { "A" } else { "B" }, obs_b, sb) })); }
   }
